@@ -1210,10 +1210,16 @@ func (sdb *DbSqlite) userCheck(email, password string) (data.Nodes, error) {
 
 		for _, e := range edges {
 			// make sure edge is not tombstone
+			tombstone := false
 			for _, p := range e.Points {
 				if p.Type == data.PointTypeTombstone && p.Value != 0 {
-					return false, nil
+					tombstone = true
 				}
+			}
+
+			if tombstone {
+				// this path is dead, but there may be another edge
+				continue
 			}
 
 			if e.Up == "root" {
